@@ -66,6 +66,15 @@ claim("C16", "exploration",
       "One open known finding (non-ASCII text in the literal prefix of an include pattern prunes ancestors; cannot be repaired without contradicting an existing unit test). !( ) not generated.",
       "bounded-exhaustive enumeration + proptest random generation; differential oracle against a reference glob matcher, and a conservativeness invariant", "DESIGN.md 4 C16")
 
+claim("C05", "fault_enumeration",
+      "For each generated scenario the complete sequence of mutating libc calls of the dedupe command is recorded under an LD_PRELOAD interposer (single rayon thread), then every position is re-executed on an identically rebuilt tree with a kill before it, a kill after it, the call failing with each applicable errno (2 in quick, all in thorough) and the pair (call fails, next call fails). State-based oracle per original file (original bytes at the path / untouched other replica / complete move target / exactly one temporary sibling after a kill or double fault), an untouched replica of every content, processed-count and warning checks. Complete over positions of each explored scenario; scenarios themselves are sampled.",
+      "Faults and kills happen at libc call boundaries; FICLONE success is emulated by the interposer (a model of a reflink file system, not fclones code); raw syscalls would escape the interposer (the import table shows none for file operations).",
+      "fault enumeration: recorded call sequence x {kill before, kill after, errno, double fault} on proptest-generated scenarios; state-based oracle", "DESIGN.md 4 C05")
+claim("C07", "exploration",
+      "Generated trees x group with every transform I/O mode, --no-copy, --in-place, --cache, -o, link options and helper programs that read all/part/none of the input, fail, or never open $OUT; and all five dedupe operations with --dry-run. Strict inventory equality (paths, bytes, inodes, link counts, symlink targets, mtimes, modes), zero mutating libc calls below the scanned tree in the LD_PRELOAD trace of fclones and its children, and no fclones-* leftovers in TMPDIR.",
+      "Mutations observed at libc level; helpers never write to $IN so any input change is fclones' own.",
+      "proptest generation; oracle = inventory equality + system-call trace invariant (LD_PRELOAD interposer)", "DESIGN.md 4 C07")
+
 NOT_YET = "check not built yet in this round (planned: see DESIGN.md section 4); not claimed until it exists"
 
 hooks_commits = subprocess.run(["git","-C","/repo","log","--format=%H %s"],capture_output=True,text=True).stdout.splitlines()
